@@ -88,8 +88,9 @@ def gen_net(rng, fault_rate, kinds):
 
 
 def generate(rng, tier):
-    world = gen_world(rng)
-    nthreads = rng.randint(2, 4)
+    big = tier != "quick"
+    world = gen_world(rng, max_wrappers=7 if big else 5)
+    nthreads = rng.randint(2, 6 if big else 4)
     fault_free = rng.random() < 0.25
     fault_rate = 0.0 if fault_free else rng.choice([0.05, 0.15, 0.3])
     kinds = [k for k in hw.FAULT_KINDS if rng.random() < 0.6]
@@ -97,13 +98,16 @@ def generate(rng, tier):
     k = 0
     nw = len(world["wrappers"])
     for t in range(nthreads):
-        for _ in range(rng.randint(1, 4)):
+        for _ in range(rng.randint(1, 8 if big else 4)):
             op = {"op": "req", "k": k, "t": t, "w": rng.randrange(nw),
                   "verb": rng.choice(VERBS), "path": rng.choice(["/a", "/b/c", "/", "/q"]),
                   "own_id": (f"caller-{k}" if rng.random() < 0.2 else None),
                   "net": gen_net(rng, fault_rate, kinds)}
             if rng.random() < 0.3:
                 op["hdr"] = {"X-Other": f"v{k}"}
+            if rng.random() < 0.2:
+                # the thread first derives a fresh connection from the chosen one and sends through that
+                op["derive"] = rng.choice(["plain", "prefix", "mcaller"])
             ops.append(op)
             k += 1
     rng.shuffle(ops)
@@ -156,8 +160,36 @@ def build_world(spec):
     return objs
 
 
+def _derive_in_thread(w, kind):
+    ch = hw.conn_http
+    mh = hw.mcaller_http
+    base = w.http_conn if hasattr(w, "http_conn") else w
+    if kind == "plain":
+        return ch.HttpConn(base), False
+    if kind == "prefix":
+        return ch.HttpConn(base, adapters=ch.RequestAdapterAddPathPrefix("/d")), False
+
+    class ThreadCaller(mh.MCallerHttp):
+        _HTTP_PREFIX_MAP = {"cmp": "/tc"}
+
+        @mh.method_http(None, "cmp")
+        def simcall(self, verb, path, kw):
+            """issue one request"""
+            return getattr(self.get_conn(), verb)(path, **kw)
+    return ThreadCaller(base), True
+
+
 def do_request(objs, spec, op):
     w = objs[op["w"] % len(objs)]
+    if op.get("derive"):
+        w, is_mc = _derive_in_thread(w, op["derive"])
+        hdrs = dict(op.get("hdr") or {})
+        if op.get("own_id") is not None:
+            hdrs["X-Request-ID"] = op["own_id"]
+        kw = {"headers": hdrs} if hdrs else {}
+        if is_mc:
+            return w.simcall(op["verb"], op["path"], kw)
+        return getattr(w, op["verb"])(op["path"], **kw)
     hdrs = dict(op.get("hdr") or {})
     if op.get("own_id") is not None:
         hdrs["X-Request-ID"] = op["own_id"]
